@@ -358,7 +358,7 @@ class DocGen(object):
             elif x < 0.48:
                 out.append('</%s>' % r.choice(('zzz', 'div', 'span', 'pre', 'b')))     # stray or early close
             elif x < 0.495:
-                out.append(r.choice(('<!DOCTYPE second>', '<?pi x?>', '<![CDATA[x]]>')))  # declarations / PI in the body
+                out.append(r.choice(('<!DOCTYPE second>', '<?pi x?>')))  # a declaration or processing instruction in the body
             else:
                 out.append(self.element(depth, in_pre))
         return ''.join(out)
